@@ -152,6 +152,21 @@ func traceBackup(t *testing.T, o opts) {
 			race = 1 + r.Intn(3)
 		}
 		cancel := tcur + pick(r, []int64{503, 45011, 125003, 245017, 600011})
+		if r.Intn(4) == 0 {
+			// the racing write is the last one, followed by a long quiet stretch: it must still be backed up
+			var early []int64
+			for _, w := range writes {
+				if w < 50000 {
+					early = append(early, w)
+				}
+			}
+			writes = early
+			race = 1
+			if len(writes) > 0 {
+				race = 2
+			}
+			cancel = pick(r, []int64{245017, 600011, 1200007})
+		}
 		emit("begin\t%d", h)
 		dir := filepath.Join(o.dir, fmt.Sprintf("b%d", h))
 		os.MkdirAll(dir, 0700)
@@ -159,6 +174,11 @@ func traceBackup(t *testing.T, o opts) {
 		kek, _ := aead.New(kh)
 		path := filepath.Join(dir, "setec.db")
 		done := make(chan string, 1)
+		wl := make([]string, len(writes))
+		for i, w := range writes {
+			wl[i] = fmt.Sprint(w)
+		}
+		head := fmt.Sprintf("backup\twrites=%s\tscript=%s\tlatency=%d\trace=%d\tcancel=%d", strings.Join(wl, ","), strings.Join(script, ","), latency, race, cancel)
 		go func() {
 			res := ""
 			synctest.Test(t, func(t *testing.T) {
@@ -241,17 +261,16 @@ func traceBackup(t *testing.T, o opts) {
 				}
 				res = fmt.Sprintf("ups=%s\tfiles=%s\texit=%d\tspins=0\tfinal=%s", strings.Join(uparts, ";"), strings.Join(fparts, ";"), exitAt, h12(final))
 				if exitAt < 0 {
-					// the task did not exit: keep the bubble from deadlocking on it
-					t.Log("backup task still running")
+					// the task did not return: it cannot be stopped and would keep the bubble (and its
+					// virtual clock) running for ever, so report this history and abandon the rest
+					emit("%s\t%s", head, res)
+					out.Flush()
+					os.RemoveAll(dir)
+					os.Exit(0)
 				}
 			})
 			done <- res
 		}()
-		wl := make([]string, len(writes))
-		for i, w := range writes {
-			wl[i] = fmt.Sprint(w)
-		}
-		head := fmt.Sprintf("backup\twrites=%s\tscript=%s\tlatency=%d\trace=%d\tcancel=%d", strings.Join(wl, ","), strings.Join(script, ","), latency, race, cancel)
 		select {
 		case res := <-done:
 			emit("%s\t%s", head, res)
